@@ -58,21 +58,17 @@ theorem eq_earliest_partial (p : Pat) (cfg : Cfg) (evs : List Event) (hfree : p.
 theorem noDrop_of_short_stream (p : Pat) (cfg : Cfg) (evs : List Event) (h : evs.length ≤ cfg.maxRuns) :
     (runAll p cfg evs).1.dropped = false := noDrop_of_length h
 
-/-- the witness of C02-neg-at-completion: `A as a -> B as b .not(B)` on `A B` -/
-def witnessPat : Pat :=
-  { steps := [⟨"A", none, some "a", false⟩, ⟨"B", none, some "b", false⟩], partition := none, negs := [⟨"B", none⟩] }
-def witnessEvs : List Event := [⟨0, "A", []⟩, ⟨1, "B", []⟩]
-
-/-- **the full-strength statement is false**: on the witness the oracle has one match (the `B` is not
+/-- **the full-strength statement is false**: on the witness `A as a -> B as b .not(B)` / `A B`
+(`c02WitnessPat`, `c02WitnessEvs`) the oracle has one match (the `B` is not
 *before* the completion), the engine emits none. -/
 theorem eq_earliest_counterexample :
-    witnessPat.allFree = true ∧ (runAll witnessPat {} witnessEvs).1.dropped = false ∧
-    (Spec.earliest witnessPat witnessEvs).length = 1 ∧
-    ¬ (matchesOf witnessPat {} witnessEvs).Perm (Spec.earliest witnessPat witnessEvs) := by
-  have hd : (runAll witnessPat {} witnessEvs).1.dropped = false := noDrop_of_length (by decide)
-  have hfree : witnessPat.allFree = true := by decide
-  have hnf : Spec.earliestNF witnessPat witnessEvs = [] := by decide
-  have hsp : (Spec.earliest witnessPat witnessEvs).length = 1 := by decide
+    c02WitnessPat.allFree = true ∧ (runAll c02WitnessPat {} c02WitnessEvs).1.dropped = false ∧
+    (Spec.earliest c02WitnessPat c02WitnessEvs).length = 1 ∧
+    ¬ (matchesOf c02WitnessPat {} c02WitnessEvs).Perm (Spec.earliest c02WitnessPat c02WitnessEvs) := by
+  have hd : (runAll c02WitnessPat {} c02WitnessEvs).1.dropped = false := noDrop_of_length (by decide)
+  have hfree : c02WitnessPat.allFree = true := by decide
+  have hnf : Spec.earliestNF c02WitnessPat c02WitnessEvs = [] := by decide
+  have hsp : (Spec.earliest c02WitnessPat c02WitnessEvs).length = 1 := by decide
   refine ⟨hfree, hd, hsp, ?_⟩
   intro hperm
   have h1 := (matches_perm_earliestNF (cfg := {}) hfree hd).length_eq
